@@ -351,6 +351,7 @@ class Report:
         for k in self.known:
             print('KNOWN-FINDING: property=%s %s' % (self.pid, k))
         seen = set()
+        self.violations.sort(key=lambda v: v[1] != '')
         for p, tail in self.violations[:5]:
             if p in seen: continue
             seen.add(p)
